@@ -33,6 +33,7 @@ structure Decl where
   pos : Nat
   endp : Nat
   text : String            -- printed form of the declaration (comments inside it included)
+  docPos : Option Nat := none   -- `decl.Doc` as go/parser set it: the position of the doc comment group, if any
   deriving DecidableEq, Repr, Inhabited
 
 structure File where
@@ -70,9 +71,14 @@ def mergeImports (fs : List File) : List Import := (fs.foldl impFile {}).out
 
 /-! ## declarations: source.go:76-87 and 120-139 -/
 
-/-- `attachCommentsForDecl`: comment groups starting inside the declaration, or ending less than 10
-    bytes before it -/
+/-- `attachCommentsForDecl` (since fix 102a5c2): comment groups starting inside the declaration, and the
+    declaration's own doc comment group (`cg == declDoc(decl)`, a group that ends before the declaration).
+    Before the fix the second clause was "ends less than 10 bytes before it", which also caught a comment at
+    the end of the previous declaration (`attachedBefore`, kept for the record). -/
 def attached (d : Decl) (c : Comment) : Bool :=
+  (d.pos ≤ c.pos && c.pos ≤ d.endp) || (c.endp ≤ d.pos && d.docPos = some c.pos)
+
+def attachedBefore (d : Decl) (c : Comment) : Bool :=
   (d.pos ≤ c.pos && c.pos ≤ d.endp) || (c.endp ≤ d.pos && d.pos - c.endp < 10)
 
 def attach (f : File) (d : Decl) : List Comment := f.comments.filter (attached d)
